@@ -261,6 +261,16 @@ def subject(case):
             p = path_of(doc, par, ns, True, case['default_ns']) + '/*'
             r = {'addr': list(a), 'path': p, 'positions': False, 'same_decl': True}
             sibs = [par + (i,) for i in range(len(elems[par]))]
+            # the lookup of a child's declaration through the wildcard-terminated path of its parent
+            try:
+                g = s.get_element(elems[a].tag, p, nsmap)
+                u = used.get(id(elems[a]))
+                if u is not None and not ((g is u) or (g is not None and g.type is u.type and g.name == u.name)):
+                    r['same_decl'] = False
+                    r['find'] = None if g is None else [g.name, g.type.name or 'complex']
+                    r['used'] = [u.name, u.type.name or 'complex']
+            except Exception as e:  # noqa
+                r['find_exc'] = common.exc_class(e) + ': ' + str(e)[:80]
             try:
                 part = list(s.iter_decode(res, path=p, namespaces=nsmap, validation='lax', converter=conv))
                 r['part'] = [strip_root_xmlns(x) for x in part if not isinstance(x, Exception)]
@@ -295,6 +305,13 @@ def subject(case):
                 r['part_exc'] = common.exc_class(e) + ': ' + str(e)[:80]
             if not any(x['path'] == p for x in out['paths']):
                 out['paths'].append(r)
+    # the declarations used when the document is validated chunk by chunk (lazy resources look them up by path too)
+    out['lazy'] = {}
+    for k in (1, 2):
+        try:
+            out['lazy'][str(k)] = sorted(str(e.reason)[:60] for e in s.iter_errors(xmlschema.XMLResource(xml, lazy=k)))
+        except Exception as e:  # noqa
+            out['lazy'][str(k)] = 'EXC ' + common.exc_class(e) + ': ' + str(e)[:80]
     out['depth'] = {}
     for k in (1, 2, 3, 4):
         try:
@@ -370,6 +387,12 @@ def evaluate(ctx, cases):
                     else:
                         problems.append('errors with path=%s are %s, the full run has %s in the selected part'
                                         % (r['path'], r['part_errors'][:3], r['want_errors'][:3]))
+        full_reasons = sorted(r for _p, r in o['full_errors'])
+        for k, v in o.get('lazy', {}).items():
+            ctx.count(('lazy', xml, k, c['version']), nontrivial=True)
+            if v != full_reasons:
+                problems.append('validation through a lazy resource (depth %s) reports %s, the loaded document %s'
+                                % (k, v[:3] if isinstance(v, list) else v, full_reasons[:3]))
         for k, v in o['depth'].items():
             ctx.count(('d', xml, k, c['version']), nontrivial=True)
             if isinstance(v, str):
